@@ -110,16 +110,20 @@ def work(ec: EvoCase) -> Dict[str, Any]:
                     continue
                 for (kind, v), e, o in zip(tests, enc, dec):
                     bad = None
+                    enc_off = ("exc" not in e) and e["bytes"] != spec_encode(lay_n, v).hex()
                     if "exc" in e:
                         bad = f"new encoder raised {e['exc']}: {e['msg']}"
-                    elif e["bytes"] != spec_encode(lay_n, v).hex():
-                        bad = f"new encoder bytes {e['bytes']} != specified {spec_encode(lay_n, v).hex()}"
                     elif "exc" in o:
                         bad = f"old decoder raised {o['exc']}: {o['msg']} at {o['frame']}"
                     else:
                         wrong = [(pth, got, v[tuple(map(tuple, pth))]) for pth, got in o["leaves"] if got != v[tuple(map(tuple, pth))]]
                         if wrong:
                             bad = f"old decoder read {wrong[:3]} (path, got, encoded)"
+                    if bad and enc_off:
+                        # end to end (real S2 encoder -> real S1 decoder) the property fails although the old decoder is
+                        # right on the SPECIFIED wire: the new version's encoder deviates from the layout (C01's matter too)
+                        bad += f"; the new version's real encoder emits {e['bytes'][:48]}.. instead of the specified {spec_encode(lay_n, v).hex()[:48]}.."
+                        kind = "cex"
                     if kind == "wit":
                         res["witness"] += 1
                         if bad is None:
